@@ -124,11 +124,16 @@ package bt
 //@   ensures[clone_counts] (and (= (len (. result Inputs)) (len (. tx Inputs))) (= (len (. result Outputs)) (len (. tx Outputs))))
 //@   ensures[clone_inputs_fresh] (forall ((k Int)) (=> (and (<= 0 k) (< k (len (. result Inputs)))) (and (not (nil? (at (. result Inputs) k))) (fresh (at (. result Inputs) k)))))
 //@   ensures[clone_outputs_fresh] (forall ((k Int)) (=> (and (<= 0 k) (< k (len (. result Outputs)))) (and (not (nil? (at (. result Outputs) k))) (fresh (at (. result Outputs) k)))))
+//@   ensures[clone_prev_fields] (forall ((k Int)) (=> (and (<= 0 k) (< k (len (. result Inputs)))) (and (= (. (at (. result Inputs) k) PreviousTxScript) (old (. (at (. tx Inputs) k) PreviousTxScript))) (= (. (at (. result Inputs) k) PreviousTxSatoshis) (old (. (at (. tx Inputs) k) PreviousTxSatoshis))) (not (nil? (. (at (. result Inputs) k) UnlockingScript))))))
+//@   ensures[clone_out_sats] (forall ((k Int)) (=> (and (<= 0 k) (< k (len (. result Outputs)))) (= (. (at (. result Outputs) k) Satoshis) (old (. (at (. tx Outputs) k) Satoshis)))))
 //@   ensures[clone_scripts_nonnil] (forall ((k Int)) (=> (and (<= 0 k) (< k (len (. result Outputs)))) (not (nil? (. (at (. result Outputs) k) LockingScript)))))
 //@   requires (forall ((k Int)) (=> (and (<= 0 k) (< k (len (. tx Inputs)))) (not (nil? (at (. tx Inputs) k)))))
 //@   requires (forall ((k Int)) (=> (and (<= 0 k) (< k (len (. tx Outputs)))) (not (nil? (at (. tx Outputs) k)))))
 //@   loop 0 invariant (and (not (nil? clone)) (fresh clone) (= (len (. clone Inputs)) (+ rangeindex 1)) (or (nil? (. clone Inputs)) (fresh (. clone Inputs))))
 //@   loop 0 invariant (forall ((k Int)) (=> (and (<= 0 k) (< k (len (. clone Inputs)))) (and (not (nil? (at (. clone Inputs) k))) (fresh (at (. clone Inputs) k)))))
+//@   loop 0 invariant (forall ((k Int)) (=> (and (<= 0 k) (< k (len (. clone Inputs)))) (and (= (. (at (. clone Inputs) k) PreviousTxScript) (old (. (at (. tx Inputs) k) PreviousTxScript))) (= (. (at (. clone Inputs) k) PreviousTxSatoshis) (old (. (at (. tx Inputs) k) PreviousTxSatoshis))) (not (nil? (. (at (. clone Inputs) k) UnlockingScript))))))
+//@   loop 1 invariant (forall ((k Int)) (=> (and (<= 0 k) (< k (len (. clone Inputs)))) (and (= (. (at (. clone Inputs) k) PreviousTxScript) (old (. (at (. tx Inputs) k) PreviousTxScript))) (= (. (at (. clone Inputs) k) PreviousTxSatoshis) (old (. (at (. tx Inputs) k) PreviousTxSatoshis))) (not (nil? (. (at (. clone Inputs) k) UnlockingScript))))))
+//@   loop 1 invariant (forall ((k Int)) (=> (and (<= 0 k) (< k (len (. clone Outputs)))) (= (. (at (. clone Outputs) k) Satoshis) (old (. (at (. tx Outputs) k) Satoshis)))))
 //@   loop 0 invariant (forall ((k Int)) (=> (and (<= 0 k) (< k (len (. tx Inputs)))) (not (nil? (at (. tx Inputs) k)))))
 //@   loop 0 invariant (forall ((k Int)) (=> (and (<= 0 k) (< k (len (. tx Outputs)))) (not (nil? (at (. tx Outputs) k)))))
 //@   loop 1 invariant (forall ((k Int)) (=> (and (<= 0 k) (< k (len (. tx Outputs)))) (not (nil? (at (. tx Outputs) k)))))
